@@ -79,7 +79,7 @@ DOMXPathExpressionImpl::DOMXPathExpressionImpl(const XMLCh *expression, const DO
         fMoveToRoot=true;
     }
     else
-        fExpression=XMLString::replicate(expression);
+        fExpression=XMLString::replicate(expression, fMemoryManager);
 
     try
     {
